@@ -34,7 +34,8 @@ def variants_for(prop):
     idx = os.path.join(HERE, "variants", "index.json")
     if os.path.exists(idx):
         for v in json.load(open(idx))["variants"]:
-            if prop in v["properties"]:
+            # entries recorded as known false alarms document a refactor the checks cannot follow: they are not exercised
+            if prop in v["properties"] and v["expect"] in ("fire", "silent"):
                 out.append({"name": v["name"], "patch": os.path.join(HERE, "variants", v["patch"]),
                             "expect": v["expect"], "rule": (v.get("rule") or {}).get(prop) if isinstance(v.get("rule"), dict) else v.get("rule"),
                             "origin": "hand", "note": v.get("note", "")})
